@@ -32,6 +32,8 @@ def params(cfg):
         max_items, max_ems = cfg["max_items"], cfg["max_ems"]
     elif gen == "toy":
         max_items, max_ems = 20, 60  # "ToyGenerator with 20 items and 60 EMSs maximum"
+    elif gen == "csvloose":  # jmon/envs.py writes 8 boxes that fit with room to spare
+        max_items, max_ems = 8, cfg["max_ems"]
     else:  # csv: jmon/envs.py writes an instance of at most 12 items
         max_items, max_ems = 12, cfg["max_ems"]
     return {
@@ -45,7 +47,9 @@ def params(cfg):
 
 
 def RANDOM_GENERATOR(cfg):
-    return cfg.get("gen") in (None, "random")
+    # with very few items the splitting construction has no choice left (one or two cuts of the container, or none at all when
+    # a cut into `split_num_same_items` pieces would exceed `max_num_items`): a constant output is not a defect there
+    return cfg.get("gen") in (None, "random") and int(cfg.get("max_items", 20)) >= 10
 
 
 def horizon(P):
@@ -483,7 +487,7 @@ def generator_checks(P, env, rng, tier):
             P.hit("generate_solution_checked")
             out.extend(f"{p.split(':', 1)[0]}: key {k}:{p.split(':', 1)[1]}" for p in _solution_problems(P, sol, ini))
             out.extend(f"call_unpacked: key {k}: {p}" for p in _reset_state_problems(P, ini))
-    if P.params["gen"] == "csv":
+    if P.params["gen"] in ("csv", "csvloose"):
         # independent round trip: a file written here must come back item for item (quantities expanded in order)
         cl, cw, ch = P.params["container"]
         rows = [("a", min(1000, cl), min(700, cw), min(300, ch), 3), ("b", min(1100, cl), min(430, cw), min(250, ch), 1),
